@@ -12,7 +12,10 @@ IMPL_NOTE = ("C03 on the implementation-shaped worker group with failing user fu
              "NilIffNoFailure AtMostOnce ContinueAll AbortedWorkerStops AbortBound NoStall AllDone; liveness Settles / Terminates")
 
 IMPL_QUICK = [("WorkersFault", "MC_wf_pp.cfg"), ("WorkersFault", "MC_wf_map.cfg"), ("WorkersFault", "MC_wf_gen.cfg")]
-IMPL_FULL = [("WorkersFault", "MC_wf_%s_%s.cfg" % (c, s)) for s in ("full", "wide", "live") for c in ("pp", "map", "gen")]
+# largest first, so that the three parallel TLC runs stay balanced
+IMPL_FULL = [("WorkersFault", "MC_wf_%s_%s.cfg" % (c, s)) for c, s in (
+    ("map", "wide"), ("map", "full"), ("pp", "wide"), ("pp", "full"), ("map", "live"), ("pp", "live"), ("gen", "wide"),
+    ("map", "kinds"), ("gen", "full"), ("pp", "kinds"), ("gen", "live"), ("gen", "kinds"))]
 
 # (module, cfg, invariant that MUST be violated, what it shows)
 ASIS = [
